@@ -1,4 +1,4 @@
-package c03
+package c08
 
 import (
 	"testing"
@@ -8,8 +8,6 @@ import (
 
 func TestReplay(t *testing.T) {
 	verif.ReplayMain(map[string]func(){
-		"HarnessFaults": HarnessFaults,
-		"HarnessNotify": HarnessNotify,
-		"HarnessRetry":  HarnessRetry,
+		"HarnessTermination": HarnessTermination,
 	})
 }
